@@ -17,7 +17,7 @@ ASSUMPTIONS = ["in_memory=True only (in_memory=False needs fitsio, which is not 
 
 
 def histories(rng, tier):
-    n = 160 if tier == 'quick' else 1200
+    n = 220 if tier == 'quick' else 1200
     out = []
     for _ in range(n):
         kind = rng.choice(['int', 'int', 'flt', 'rec', 'wide'])
